@@ -14,15 +14,19 @@ open H2V H2V.Model H2V.Model.Conn
 
 /-- a step that leaves `goAway`, `last_processed_id` and `max_stream_id` alone -/
 def Keep15 (c c' : Conn) : Prop :=
-  c'.goAway = c.goAway ∧ (view c'.streams).lpi = (view c.streams).lpi ∧ (view c'.streams).rmax = (view c.streams).rmax
+  c'.goAway = c.goAway ∧ (view c'.streams).lpi = (view c.streams).lpi ∧ (view c'.streams).rmax = (view c.streams).rmax ∧
+  ((view c.streams).connErr.isSome = true → (view c'.streams).connErr.isSome = true)
 
-theorem Keep15.refl (c : Conn) : Keep15 c c := ⟨rfl, rfl, rfl⟩
+theorem Keep15.refl (c : Conn) : Keep15 c c := ⟨rfl, rfl, rfl, id⟩
 theorem Keep15.trans {a b c : Conn} (h1 : Keep15 a b) (h2 : Keep15 b c) : Keep15 a c :=
-  ⟨h2.1.trans h1.1, h2.2.1.trans h1.2.1, h2.2.2.trans h1.2.2⟩
+  ⟨h2.1.trans h1.1, h2.2.1.trans h1.2.1, h2.2.2.1.trans h1.2.2.1, fun h => h2.2.2.2 (h1.2.2.2 h)⟩
 theorem Keep15.of_view {c c' : Conn} (hg : c'.goAway = c.goAway) (hv : view c'.streams = view c.streams) : Keep15 c c' :=
-  ⟨hg, by rw [hv], by rw [hv]⟩
-theorem Keep15.inv {c c' : Conn} (h : Keep15 c c') (hi : GoAwayInv c) : GoAwayInv c' := hi.congr' h.1 h.2.1 h.2.2
-theorem Keep15.gaLe {c c' : Conn} (h : Keep15 c c') : GaLe c c' := GaLe.of_eq (by rw [h.1])
+  ⟨hg, by rw [hv], by rw [hv], by rw [hv]; exact id⟩
+theorem Keep15.inv {c c' : Conn} (h : Keep15 c c') (hi : GoAwayInv c) : GoAwayInv c' := hi.congr' h.1 h.2.1 h.2.2.1
+theorem Keep15.gaLe {c c' : Conn} (h : Keep15 c c') : GaLe c c' :=
+  ⟨(GaLe.of_eq (c := c) (c' := c) rfl rfl).1 |> fun _ => by
+      intro m hm
+      exact ⟨m, by unfold gaLast at *; rw [h.1]; exact hm, Nat.le_refl _⟩, h.2.2.2⟩
 
 /-- what a step of `poll` must satisfy: invariant kept, announced id monotone -/
 def Step15 (c c' : Conn) : Prop := GoAwayInv c' ∧ GaLe c c'
@@ -85,7 +89,7 @@ theorem sendPendingPing_keep (c : Conn) : Keep15 c c.sendPendingPing.1 := by
 theorem ackAndApply_keep (c : Conn) (v : List (Nat × Nat)) : Keep15 c (ackAndApply c v).1 := by
   obtain ⟨ms, iw, p, hv, -⟩ := view_applyRemoteSettings c.streams v (!c.settings.hasReceivedRemoteInitialSettings)
   have hs := (ackAndApply_spec c v).2.1
-  refine ⟨?_, by rw [hs, hv], by rw [hs, hv]⟩
+  refine ⟨?_, by rw [hs, hv], by rw [hs, hv], by rw [hs, hv]; exact id⟩
   unfold ackAndApply
   dsimp only
   split <;> rfl
@@ -190,21 +194,26 @@ theorem pingTail_step15 (c c1 : Conn) (sh : Bool) (hi : GoAwayInv c) (hg : c1.go
       · exact k1.trans (Keep15.of_view rfl (by simp [Conn.panic]))
     generalize (if c1.goAway.isGoingAway then c1 else c1.panic "received unexpected shutdown ping") = c2 at k2 ⊢
     have i2 := k2.inv hi
-    obtain ⟨d1, -, -, d4, -, -⟩ := dynGoAway_inv c2 c2.streams.recv.lastProcessedId NO_ERROR (Nat.le_refl _) i2.lpi_le_max
+    obtain ⟨d1, d2', -, d4, -, -⟩ := dynGoAway_inv c2 c2.streams.recv.lastProcessedId NO_ERROR (Nat.le_refl _) i2.lpi_le_max
       (fun ga hga => i2.lpi_le_ga ga hga)
-    refine ⟨d1, ?_⟩
-    intro m hm
-    refine ⟨_, by unfold gaLast; rw [d4]; rfl, ?_⟩
-    have hm' : gaLast c2 = some m := by
-      unfold gaLast at hm ⊢; rw [k2.1]; exact hm
-    unfold gaLast at hm'
-    cases hga : c2.goAway.goingAway with
-    | none => rw [hga] at hm'; cases hm'
-    | some ga =>
-      rw [hga] at hm'
-      simp at hm'
-      rw [← hm']
-      exact i2.lpi_le_ga ga hga
+    obtain ⟨-, dv, -, -, -⟩ := recvGoAway_ok c2.streams c2.streams.recv.lastProcessedId i2.lpi_le_max
+    refine ⟨d1, ?_, ?_⟩
+    · intro m hm
+      refine ⟨_, by unfold gaLast; rw [d4]; rfl, ?_⟩
+      have hm' : gaLast c2 = some m := by
+        unfold gaLast at hm ⊢; rw [k2.1]; exact hm
+      unfold gaLast at hm'
+      cases hga : c2.goAway.goingAway with
+      | none => rw [hga] at hm'; cases hm'
+      | some ga =>
+        rw [hga] at hm'
+        simp at hm'
+        rw [← hm']
+        exact i2.lpi_le_ga ga hga
+    · intro hs
+      have := k2.2.2.2 hs
+      show (view (c2.dynGoAway c2.streams.recv.lastProcessedId NO_ERROR).streams).connErr.isSome = true
+      rw [d2', dv]; exact this
 
 /-- `recv_frame` while `close_now` is unset keeps the invariant; the announced id can only go down
     (the ACK of the shutdown PING) -/
@@ -221,9 +230,10 @@ theorem recvFrame_step15 (c : Conn) (frame : Option Frame.Frame) (hi : GoAwayInv
   cases frame with
   | none =>
     unfold Conn.recvFrame
-    refine (Keep15.step ⟨rfl, ?_, ?_⟩ hi)
+    refine (Keep15.step ⟨rfl, ?_, ?_, ?_⟩ hi)
     · show (view (c.streams.recvEof false)).lpi = _; rw [view_recvEof]
     · show (view (c.streams.recvEof false)).rmax = _; rw [view_recvEof]
+    · intro _; show (view (c.streams.recvEof false)).connErr.isSome = true; rw [view_recvEof]; rfl
   | some f =>
     cases f with
     | headers sid eos dep blk =>
@@ -251,7 +261,7 @@ theorem recvFrame_step15 (c : Conn) (frame : Option Frame.Frame) (hi : GoAwayInv
             rw [hl1]; exact hi.none_max hn
           · exact hi.pend
           · exact hi.close_ga
-      cases r <;> exact ⟨hinv, GaLe.of_eq rfl⟩
+      cases r <;> exact ⟨hinv, GaLe.of_eq rfl (by show (view s).connErr = _; rw [hl1])⟩
     | data sid payload eos padLen => unfold Conn.recvFrame; exact lift _ (view_recvData _ _ _ _ _)
     | reset sid code => unfold Conn.recvFrame; exact lift _ (view_recvReset _ _ _)
     | pushPromise sid promised blk => unfold Conn.recvFrame; exact lift _ (view_recvPushPromise _ _ _)
@@ -273,7 +283,8 @@ theorem recvFrame_step15 (c : Conn) (frame : Option Frame.Frame) (hi : GoAwayInv
         obtain ⟨e1, -⟩ := g1 u rfl
         dsimp only at e1
         exact (Keep15.step (c := c) (c' := { c with streams := s, error := some { lastStreamId := last, reason := code, debugData := debug } })
-          ⟨rfl, by show (view s).lpi = _; rw [e1], by show (view s).rmax = _; rw [e1]⟩ hi)
+          ⟨rfl, by show (view s).lpi = _; rw [e1], by show (view s).rmax = _; rw [e1],
+            by intro _; show (view s).connErr.isSome = true; rw [e1]; rfl⟩ hi)
     | ping ack payload =>
       rw [recvFrame_ping_eq]
       apply pingTail_step15 c _ _ hi
@@ -297,7 +308,8 @@ theorem recvSettings_keep (c : Conn) (ack : Bool) (vals : List (Nat × Nat)) : K
       rcases hs : c.streams.applyLocalSettingsFrame loc with ⟨s, r⟩
       rw [hs] at hw
       dsimp only at hw
-      cases r <;> exact ⟨rfl, by show (view s).lpi = _; rw [hw], by show (view s).rmax = _; rw [hw]⟩
+      cases r <;> exact ⟨rfl, by show (view s).lpi = _; rw [hw], by show (view s).rmax = _; rw [hw],
+        by show _ → (view s).connErr.isSome = true; rw [hw]; exact id⟩
     | toSend l => rw [recvSettings_ack_unsolicited c vals (by intro l' h; rw [hl] at h; cases h)]; exact Keep15.refl c
     | synced => rw [recvSettings_ack_unsolicited c vals (by intro l' h; rw [hl] at h; cases h)]; exact Keep15.refl c
 
@@ -307,7 +319,7 @@ theorem Step15.trans {a b c : Conn} (h1 : Step15 a b) (h2 : GoAwayInv b → Step
   ⟨(h2 h1.1).1, h1.2.trans (h2 h1.1).2⟩
 
 theorem goAwayNowData_step15 (c : Conn) (e : Reason) (d : Bytes) (hi : GoAwayInv c) : Step15 c (c.goAwayNowData e d) := by
-  refine ⟨(goAwayNowData_inv c e d hi).1, ?_⟩
+  refine ⟨(goAwayNowData_inv c e d hi).1, ?_, fun hs => by rw [(goAwayNowData_inv c e d hi).2]; exact hs⟩
   intro m hm
   have hg := (goAwayNow_result c e d c.goAway.isUserInitiated hi).2.1
   refine ⟨c.streams.recv.lastProcessedId, ?_, ?_⟩
@@ -327,7 +339,8 @@ theorem goAwayNowData_step15 (c : Conn) (e : Reason) (d : Bytes) (hi : GoAwayInv
 theorem keep15_handleError (c : Conn) (err : PErr) : Keep15 c { c with streams := (c.streams.handleError err).1 } := by
   have := (view_handleError c.streams err).1
   exact ⟨rfl, by show (view (c.streams.handleError err).1).lpi = _; rw [this],
-    by show (view (c.streams.handleError err).1).rmax = _; rw [this]⟩
+    by show (view (c.streams.handleError err).1).rmax = _; rw [this],
+    by intro _; show (view (c.streams.handleError err).1).connErr.isSome = true; rw [this]; rfl⟩
 
 theorem handleGoAway_step15 (c : Conn) (r : Reason) (d : Bytes) (i : Initiator) (hi : GoAwayInv c) :
     Step15 c (c.handleGoAway r d i) := by
@@ -358,7 +371,7 @@ theorem handlePoll2Result_step15 (c : Conn) (res : Except PErr Unit) (hi : GoAwa
       dsimp only
       have k := keep15_handleError c (.io kind msg)
       split
-      · exact Keep15.step (c := c) ⟨rfl, k.2.1, k.2.2⟩ hi
+      · exact Keep15.step (c := c) ⟨rfl, k.2.1, k.2.2.1, k.2.2.2⟩ hi
       · exact k.step hi
 
 -- ===================================================================== the loop of poll2
